@@ -1,6 +1,9 @@
 """Static registry: which engine serves which property, tier sizes, evidence texts."""
 
 ENGINES = {
+    'pm_base': {'name': 'pm_base', 'binary': 'pm_base', 'source': 'pm_base.cpp (+ pm_base_cfg.cpp, pm_base_impl.h)',
+                'kind': 'seeded operation histories on general-purpose Matrix<Options> for 9 option families x column types in lock-step; dense Z_p model with row permutation and classes of identical columns',
+                'configurations': ['9 option families (field, row access kind, removable rows, map/vector container, swaps, compression) x up to 9 column types: see evidence']},
     'st_hist': {'name': 'st_hist', 'binary': 'st_hist', 'source': 'st_hist.cpp (+ st_cfg.cpp, st_impl.h, st_common.h)',
                 'kind': 'seeded client histories on Simplex_tree under 7 option sets (+2 sequential-sort builds) in lock-step; environment seams: sort schedule (tbb::parallel_sort shim), adversarial user graph, vertex-range order/duplicates, blocker oracle, edge delivery order; refinement against M1',
                 'configurations': ['default', 'full_featured', 'fast_persistence', 'minimal', 'fast_cofaces', 'stable', 'stable_fast_cofaces', 'default_seq (no TBB)', 'full_featured_seq (no TBB)']},
@@ -15,6 +18,19 @@ COMMON_ASSUME = [
 ]
 
 PROPS = {
+    'C09': {
+        'engine': 'pm_base',
+        'runs': {'quick': 8000, 'thorough': 200000},
+        'level_text': 'seeded search over operation histories on general-purpose matrices: insert_column (empty, singleton, dense), insert_column at a freed index, remove_column / remove_last, add_to, multiply_target_and_add_to, multiply_source_and_add_to with sources inside the matrix or given as an entry range of another matrix, coefficients drawn from {0, 1, p-1, p, negative, > p, random}, empty sources and targets, zero_entry of present and absent entries, zero_column, swap_columns, swap_rows (lazy), erase_empty_row; a plan is executed on every column type of its option family in lock-step (9 families: Z_2 / Z_p with p in {3,5,7,11,13,251}, row access off / intrusive / set, removable rows, vector / map container, swaps, compression) and audited against the dense model in seeded read order (the reads trigger the lazy row ordering, heap pruning and vector compaction at different moments): get_content, is_zero_entry, is_zero_column, entry iteration, get_number_of_columns, get_row as exactly the non-zero entries of each row; compressed variant = dense matrix in which identical columns share a representative. Evidence, not proof (<= 7 rows, <= 50 ops).',
+        'level_note': 'trusted: dense model in pm_base_impl.h / models/linalg.h; never generated: unsorted input columns, source == target, erase_empty_row of a non-empty row, insert_column at an index that is in use',
+        'technique': 'deterministic simulation: seeded client histories with seeded placement of the reads that force lazy internal work + dense-model refinement, lock-step across column representations',
+        'rule': 'one evaluation = one plan (<= 50 ops) executed on all column types of one option family against the dense model; non-trivial = at least one mutating op and one audit; distinct = distinct hash of (family, sequence of model states)',
+        'seconds': {'quick': 600, 'thorough': 3000},
+        'real': ['gudhi/Matrix.h, Base_matrix.h, Base_matrix_with_column_compression.h, base_swap.h, matrix_row_access.h, all nine column headers, entry pools, Zp_field_operators'],
+        'stub': ['none (callers are simulated clients)'],
+        'probes_expected': ['probe.target_empty', 'probe.source_empty', 'probe.coefficient_zero', 'probe.coefficient_one', 'probe.zero_absent_entry', 'probe.zero_present_entry', 'probe.swap_rows', 'probe.swap_columns', 'probe.remove_column', 'probe.remove_last', 'probe.insert_at_index', 'probe.erase_empty_row', 'probe.insert_empty_column', 'probe.add_into_zero_compressed'],
+        'assumptions': COMMON_ASSUME,
+    },
     'C01': {
         'engine': 'st_hist',
         'runs': {'quick': 6000, 'thorough': 150000},
